@@ -1,7 +1,15 @@
 """C16 - layout utilities agree with the codec: usage map, dummies, length, compress."""
+import contextlib
+import io
+import os
+import shutil
 import signal as pysignal
+import tempfile
 
 import canmatrix.canmatrix as cm
+import canmatrix.cli.convert
+import canmatrix.convert
+import canmatrix.formats
 from lib import frames as F
 
 PID = "C16"
@@ -11,7 +19,17 @@ RULE = ("ops: layout (frame 1..64 bytes, 0..8 in-frame signals, Intel/Motorola m
         "x FD flag) ; compress (frames whose signals share one byte order and do not overlap, random gaps; mixed frames as a no-op "
         "check). Exhaustive part: every gap pattern of frames <= 2 bytes built from 1..4 Motorola or Intel signals (quick: 1 byte). "
         "For dlc the frame stands in a matrix among 0..3 other frames. "
-        "case 'dummies2' = pad, take the first signal out, pad again. Non-trivial = distinct case with at least one signal and (for compress/dummies) at least one gap.")
+        "case 'dummies2' = pad, take the first signal out, pad again. "
+        "Histories (key 'h'): every op is also asked of ONE Frame object that has a past - 1..5 earlier steps on the same object "
+        "(get_frame_layout, create_dummy_signals (kept or taken out again), compress, a detour placement, frame.size = n, calc_dlc, "
+        "fit_dlc, recalc_dlc max/force of its matrix, a signal moved/resized/switched/renamed/added/removed in place, the frame renamed, "
+        "the same call on another Frame object of the same name); c.f is the frame as it stands when the judged call is made (the "
+        "generator's own bookkeeping, independent of canmatrix), and every call of a history is itself a judged case with the steps "
+        "before it as its history; dlc with api=calc_dlc asks Frame.calc_dlc directly. "
+        "Conversions (key 'via'): dlc and compress are also observed through canmatrix.convert.convert / the canconvert command line "
+        "(DBC in, DBC out) with the options compressFrame (names and globs, naming the frame or not) and recalcDLC max/force, alone and "
+        "together, the frame among 0..3 others. "
+        "Non-trivial = distinct case with at least one signal and (for compress/dummies) at least one gap.")
 EXHAUSTIVE = {"quick": False, "thorough": False}
 PARTIAL = ["compress: the theorems (compress_big_*, compress_little_*) are about frames of one byte order with disjoint, uniquely named "
            "signals inside the frame; termination of the two Python while-loops is the model's fuel bound (proved sufficient) plus a "
@@ -47,6 +65,314 @@ def gen_frame(rng, disjoint, maxn=8, order=None, sizes=None):
                     break
         sigs = out
     return {"size": n, "sigs": sigs}
+
+
+# ---------------------------------------------------------------------------------------------
+# the generator's own bookkeeping of what a history does to a frame (independent of canmatrix): which frame stands
+# there when the judged call is made
+# ---------------------------------------------------------------------------------------------
+FIT_STEPS = [12, 16, 20, 24, 32, 48, 64]
+
+
+def ref_need(sigs):
+    return (max([d[1] + d[2] for d in sigs] or [0]) + 7) // 8
+
+
+def ref_fit(n):
+    if n <= 8:
+        return n
+    for m in FIT_STEPS:
+        if n <= m:
+            return m
+    return n
+
+
+def ref_inside(size, sigs):
+    return all(d[1] >= 0 and d[1] + d[2] <= 8 * size for d in sigs)
+
+
+def ref_disjoint(sigs):
+    used = set()
+    for d in sigs:
+        a = set(F.sig_addrs(d[3], d[1], d[2]))
+        if a & used:
+            return False
+        used |= a
+    return True
+
+
+def ref_compressible(size, sigs):
+    """the domain of the compress clause: inside the frame, one byte order, no overlap, distinct names"""
+    return (ref_inside(size, sigs) and len({d[3] for d in sigs}) <= 1 and ref_disjoint(sigs)
+            and len({d[0] for d in sigs}) == len(sigs))
+
+
+def ref_compress(sigs):
+    """same signals, same list order, packed from the first bit on in the order of their positions"""
+    out = [list(d) for d in sigs]
+    pos = 0
+    for k in sorted(range(len(sigs)), key=lambda k: sigs[k][1]):
+        out[k][1] = pos
+        pos += sigs[k][2]
+    return out
+
+
+def ref_dummies(size, sigs, frname):
+    """one Motorola signal per run of payload bits (most significant bit of byte 0 first) that no signal uses"""
+    used = [False] * (8 * size)
+    for d in sigs:
+        for a in F.sig_addrs(d[3], d[1], d[2]):
+            k = 8 * (a // 8) + 7 - a % 8
+            if 0 <= k < len(used):
+                used[k] = True
+    out = []
+    k = 0
+    while k < len(used):
+        if used[k]:
+            k += 1
+            continue
+        j = k
+        while j < len(used) and not used[j]:
+            j += 1
+        out.append(F.sigdesc("_Dummy_%s_%d" % (frname, len(out)), k, j - k, False, True))
+        k = j
+    return out
+
+
+CALLS = ("layout", "dummies", "dummies-undo", "compress", "detour")
+
+
+def ref_step(st, step):
+    """st = {"size", "sigs", "name"} -> state after the step, or None when the step is outside the domain there"""
+    size, sigs, name = st["size"], [list(d) for d in st["sigs"]], st["name"]
+    k = step[0]
+    if k == "other":
+        pass
+    elif k == "layout":
+        # asked only of frames the report is defined for (signals inside the frame)
+        if not ref_inside(size, sigs):
+            return None
+    elif k == "detour":
+        if size < 1 or not ref_inside(size, sigs):
+            return None
+    elif k == "dummies-undo":
+        if not ref_inside(size, sigs):
+            return None
+    elif k == "dummies":
+        if not ref_inside(size, sigs):
+            return None
+        sigs = sigs + ref_dummies(size, sigs, name)
+    elif k == "compress":
+        if not ref_compressible(size, sigs):
+            return None
+        sigs = ref_compress(sigs)
+    elif k == "size":
+        size = step[1]
+    elif k == "calc":
+        size = max(size, ref_need(sigs))
+    elif k == "fit":
+        size = ref_fit(size)
+    elif k == "recalc":
+        size = ref_need(sigs) if step[1] == "force" else max(size, ref_need(sigs))
+    elif k == "move":
+        if not step[1] < len(sigs):
+            return None
+        sigs[step[1]][1:4] = step[2:5]
+    elif k == "rename":
+        if not step[1] < len(sigs):
+            return None
+        sigs[step[1]][0] = step[2]
+    elif k == "add":
+        sigs.append(list(step[1]))
+    elif k == "del":
+        if not step[1] < len(sigs):
+            return None
+        del sigs[step[1]]
+    elif k == "frname":
+        name = step[1]
+    else:
+        raise ValueError(step)
+    return {"size": size, "sigs": sigs, "name": name}
+
+
+def hist_case(op, h, st, rng=None, extra=None):
+    """the judged call `op` on the frame that stands there (st) after the history h; None when op is outside its domain there"""
+    fd = {"size": st["size"], "sigs": [list(d) for d in st["sigs"]]}
+    hh = {"f0": h["f0"], "name0": h["name0"], "steps": [list(x) for x in h["steps"]], "before": h["before"], "after": h["after"]}
+    if op == "fit":
+        if st["size"] > 70:
+            return None
+        return {"op": "fit", "c": [st["size"], h["f0"]["size"] > 8, {"h": hh}]}
+    if op in ("layout", "dummies", "dummies2") and not ref_inside(st["size"], st["sigs"]):
+        return None
+    if op == "compress" and not ref_compressible(st["size"], st["sigs"]):
+        return None
+    c = {"f": fd, "h": hh}
+    if op in ("dummies", "dummies2"):
+        c["name"] = st["name"]
+    if op == "dlc":
+        c.update(extra or {})
+        c["before"] = h["before"]
+        c["after"] = h["after"]
+    return {"op": op, "c": c}
+
+
+STEP_AS_OP = {"layout": "layout", "dummies": "dummies", "compress": "compress"}
+
+
+def replay_hist(h, upto=None):
+    st = {"size": h["f0"]["size"], "sigs": [list(d) for d in h["f0"]["sigs"]], "name": h["name0"]}
+    for step in h["steps"][:upto]:
+        st = ref_step(st, step)
+        if st is None:
+            return None
+    return st
+
+
+def gen_history(rng, final_op=None):
+    """a frame with a past: yields the judged cases (every call of the history with the steps before it, then the final op)"""
+    kind = rng.random()
+    sizes = [1, 2, 3, 4, 8, 8, 8, 9, 12, 16, 24, 64]
+    if kind < 0.45:
+        f0 = gen_frame(rng, True, maxn=5, order=rng.random() < 0.5, sizes=sizes)
+    elif kind < 0.85:
+        f0 = gen_frame(rng, True, maxn=5, sizes=sizes)
+    else:
+        f0 = gen_frame(rng, False, maxn=4, sizes=sizes)
+    if rng.random() < 0.35:
+        # declared longer than the signals need (a frame with room at its end), or not the length the signals were placed for
+        f0["size"] = rng.choice([f0["size"] + rng.randint(1, 4), 8, 12, 64, max(ref_need(f0["sigs"]), 1)])
+        f0["size"] = max(min(f0["size"], 64), ref_need(f0["sigs"]))
+
+    def other():
+        return gen_frame(rng, True, maxn=3, sizes=[1, 2, 8, 12])
+    h = {"f0": f0, "name0": rng.choice(["F", "Fr", "Status"]), "steps": [],
+         "before": [other() for _ in range(rng.choice([0, 0, 1]))], "after": [other() for _ in range(rng.choice([0, 0, 1]))]}
+    st = replay_hist(h)
+    nsteps = rng.choice([1, 2, 2, 3, 3, 4, 5])
+    fresh = 0
+
+    def pick_step(i):
+        r = rng.random()
+        if i == 0 and r < 0.7 or r < 0.25:
+            return [rng.choice(CALLS + ("layout", "dummies", "compress"))]
+        r = rng.random()
+        need = ref_need(st["sigs"])
+        if r < 0.22:
+            lo = need if rng.random() < 0.85 else 0
+            return ["size", rng.choice([rng.randint(lo, 64), max(lo, st["size"] - 1), min(64, st["size"] + rng.randint(1, 4)), max(lo, 8)])]
+        if r < 0.32:
+            return ["calc"]
+        if r < 0.42:
+            return ["fit"]
+        if r < 0.58:
+            return ["recalc", rng.choice(["max", "force"])]
+        if r < 0.72 and st["sigs"]:
+            k = rng.randrange(len(st["sigs"]))
+            d = None
+            for _ in range(6):
+                d = F.rand_sig(rng, "x", max(st["size"], 1) if rng.random() < 0.9 else rng.randint(1, 64), allow_float=False)
+                if rng.random() < 0.5:
+                    d[3] = st["sigs"][k][3]
+                if ref_disjoint([d] + [e for j, e in enumerate(st["sigs"]) if j != k]):
+                    break
+            return ["move", k, d[1], d[2], d[3]]
+        if r < 0.78 and st["sigs"]:
+            return ["rename", rng.randrange(len(st["sigs"])), "r%d" % i]
+        if r < 0.86:
+            d = None
+            for _ in range(6):
+                d = F.rand_sig(rng, "a%d" % i, max(st["size"], 1), allow_float=False)
+                if st["sigs"] and rng.random() < 0.6:
+                    d[3] = st["sigs"][0][3]
+                if ref_disjoint([d] + st["sigs"]):
+                    break
+            return ["add", d]
+        if r < 0.92 and st["sigs"]:
+            return ["del", rng.randrange(len(st["sigs"]))]
+        if r < 0.95:
+            return ["frname", rng.choice(["G", "Fr", "F"])]
+        o = gen_frame(rng, True, maxn=4, sizes=[1, 2, 8, 12, 64])
+        if rng.random() < 0.5:
+            o = {"size": rng.choice([st["size"], o["size"]]) or 1, "sigs": [list(d) for d in st["sigs"]]}
+            o["size"] = max(o["size"], ref_need(o["sigs"]))
+        return ["other", o, rng.choice(["layout", "dummies"])]
+
+    for i in range(nsteps):
+        for _try in range(5):
+            step = pick_step(i)
+            nxt = ref_step(st, step)
+            if nxt is not None:
+                break
+        else:
+            continue
+        # every call of the history is a judged case of its own, asked of the frame with the steps so far as its past
+        if h["steps"]:
+            op = STEP_AS_OP.get(step[0])
+            extra = None
+            if step[0] == "recalc":
+                op, extra = "dlc", {"strategy": step[1]}
+            elif step[0] == "calc":
+                op, extra = "dlc", {"strategy": "max", "api": "calc_dlc"}
+            elif step[0] == "fit":
+                op = "fit"
+            if op is not None:
+                case = hist_case(op, h, st, extra=extra)
+                if case is not None:
+                    yield case
+        h["steps"].append(step)
+        st = nxt
+    if not h["steps"]:
+        return
+    ops = ["layout", "layout", "dummies", "dummies", "dummies2", "compress", "compress", "dlc", "dlc", "fit"]
+    if final_op is not None:
+        ops = [final_op] * 3 + ops
+    if final_op is None:
+        rng.shuffle(ops)
+    for op in ops:
+        extra = None
+        if op == "dlc":
+            extra = {"strategy": rng.choice(["max", "force"])}
+            if extra["strategy"] == "max" and rng.random() < 0.5:
+                extra["api"] = "calc_dlc"
+        if op in ("layout", "dummies", "dummies2", "compress") and not ref_inside(st["size"], st["sigs"]) and ref_need(st["sigs"]) <= 64:
+            # a signal was moved beyond the end: the frame is made long enough first, the way a user would
+            fix = rng.choice([["calc"], ["recalc", "max"], ["recalc", "force"], ["size", ref_need(st["sigs"])]])
+            h["steps"].append(fix)
+            st = ref_step(st, fix)
+        case = hist_case(op, h, st, extra=extra)
+        if case is not None:
+            yield case
+            return
+
+
+def gen_via(rng):
+    """dlc / compress asked through canmatrix.convert.convert or the command line: options compressFrame and recalcDLC"""
+    # one byte order (the domain of compress) or the orders as they come (a frame compress must leave alone)
+    fd = gen_frame(rng, True, maxn=5, order=rng.choice([True, True, False, False, None]), sizes=[1, 2, 3, 4, 8, 8, 8, 12, 16, 64])
+    need = ref_need(fd["sigs"])
+    compress = None if rng.random() < 0.25 else rng.choice([["F"], ["F"], ["F"], ["*"], ["F*"], ["F", "O1"], ["O*"], ["O1", "F"], ["Fx"], ["?"]])
+    strategy = rng.choice([None, "max", "max", "force"]) if compress else rng.choice(["max", "force"])
+    if compress:
+        # the compress clause speaks of signals inside the frame: the declared length contains them, often with room to spare
+        fd["size"] = rng.choice([fd["size"], need, 8, min(64, need + rng.randint(0, 6)), 64])
+        fd["size"] = max(fd["size"], need, 1)
+    else:
+        fd["size"] = rng.choice([fd["size"], 0, rng.randint(0, 64), need])
+
+    def other():
+        return gen_frame(rng, True, maxn=3, order=rng.choice([True, False]), sizes=[1, 2, 8, 12])
+    before = [other() for _ in range(rng.choice([0, 0, 1, 2]))]
+    after = [other() for _ in range(rng.choice([0, 0, 1]))]
+    api = "cli" if rng.random() < 0.3 else "convert"
+    named = compress is not None and any(p in ("F", "*", "F*", "?") for p in compress)
+    packed = named and ref_compressible(fd["size"], fd["sigs"])
+    via = {"api": api, "compressFrame": compress, "recalcDLC": strategy}
+    if named:
+        yield {"op": "compress", "c": {"f": fd, "via": via, "before": before, "after": after}}
+    if strategy:
+        now = {"size": fd["size"], "sigs": ref_compress(fd["sigs"]) if packed else fd["sigs"]}
+        yield {"op": "dlc", "c": {"f": now, "strategy": strategy, "before": before, "after": after, "via": dict(via, orig=fd["sigs"])}}
 
 
 def gen(rng, tier, shard, nshards):
@@ -108,9 +434,28 @@ def gen(rng, tier, shard, nshards):
                     if len(sigs) <= 4:
                         yield {"op": "compress", "c": {"f": fd}}
                         yield {"op": "layout", "c": {"f": fd}}
+    # frames with a past: every op asked of ONE Frame object after earlier calls and edits on the same object
+    for _ in range({"quick": 1600, "thorough": 24000}[tier] // nshards):
+        for case in gen_history(rng):
+            yield case
+    # the same questions asked through convert() / canconvert (options compressFrame, recalcDLC, alone and together)
+    for _ in range({"quick": 400, "thorough": 4800}[tier] // nshards):
+        for case in gen_via(rng):
+            yield case
 
 
 def neighbours(case, rng, shard, nshards):
+    c = case["c"]
+    if (isinstance(c, dict) and "h" in c) or (isinstance(c, list) and len(c) > 2):
+        for _ in range(150 // nshards + 1):
+            for nb in gen_history(rng, final_op=case["op"]):
+                yield nb
+        return
+    if isinstance(c, dict) and "via" in c:
+        for _ in range(60 // nshards + 1):
+            for nb in gen_via(rng):
+                yield nb
+        return
     for _ in range(150 // nshards + 1):
         if case["op"] == "fit":
             yield {"op": "fit", "c": [rng.randint(0, 70), rng.random() < 0.5]}
@@ -136,17 +481,159 @@ def sig5(s):
     return [s.name, s.start_bit, s.size, bool(s.is_little_endian), bool(s.is_signed)]
 
 
+def guarded(fn, seconds=5.0):
+    """run fn() under a wall-clock guard (the two while-loops of compress)"""
+    old = pysignal.signal(pysignal.SIGALRM, _alarm)
+    pysignal.setitimer(pysignal.ITIMER_REAL, seconds)
+    try:
+        return fn()
+    finally:
+        pysignal.setitimer(pysignal.ITIMER_REAL, 0)
+        pysignal.signal(pysignal.SIGALRM, old)
+
+
+def do_step(fr, db, step):
+    """one step of a frame's past, on the same Frame object"""
+    k = step[0]
+    if k == "layout":
+        fr.get_frame_layout()
+    elif k == "detour":
+        with F.edited_in_place(fr):
+            fr.get_frame_layout()
+    elif k == "dummies":
+        fr.create_dummy_signals()
+    elif k == "dummies-undo":
+        n0 = len(fr.signals)
+        fr.create_dummy_signals()
+        del fr.signals[n0:]
+    elif k == "compress":
+        fr.compress()
+    elif k == "size":
+        fr.size = step[1]
+    elif k == "calc":
+        fr.calc_dlc()
+    elif k == "fit":
+        fr.fit_dlc()
+    elif k == "recalc":
+        db.recalc_dlc(step[1])
+    elif k == "move":
+        sg = fr.signals[step[1]]
+        sg.start_bit, sg.size, sg.is_little_endian = step[2], step[3], step[4]
+    elif k == "rename":
+        fr.signals[step[1]].name = step[2]
+    elif k == "add":
+        fr.add_signal(F.mksignal(step[1]))
+    elif k == "del":
+        del fr.signals[step[1]]
+    elif k == "frname":
+        fr.name = step[1]
+    elif k == "other":
+        # the same question asked of another Frame object of the same name: no business of this one
+        o = F.mkframe(step[1], name=fr.name)
+        if step[2] == "dummies":
+            o.create_dummy_signals()
+        else:
+            o.get_frame_layout()
+    else:
+        raise ValueError(step)
+
+
+def with_past(h):
+    """the frame of a history case: built as it was at first, put into its matrix, then led through its past"""
+    fr = F.mkframe(h["f0"], name=h["name0"])
+    db = cm.CanMatrix()
+    k = 0
+    for od in h.get("before", []):
+        k += 1
+        db.add_frame(F.mkframe(od, name="O%d" % k, arbid=0x700 + k))
+    db.add_frame(fr)
+    for od in h.get("after", []):
+        k += 1
+        db.add_frame(F.mkframe(od, name="O%d" % k, arbid=0x700 + k))
+    for step in h["steps"]:
+        do_step(fr, db, step)
+    return fr, db
+
+
+def via_convert(c, orig_sigs):
+    """the matrix written as DBC, converted with the options of the case (convert() or the command line), read again"""
+    via = c["via"]
+    db = cm.CanMatrix()
+    k = 0
+    for od in c.get("before", []):
+        k += 1
+        db.add_frame(F.mkframe(od, name="O%d" % k, arbid=0x700 + k))
+    db.add_frame(F.mkframe({"size": c["f"]["size"], "sigs": orig_sigs}, name="F"))
+    for od in c.get("after", []):
+        k += 1
+        db.add_frame(F.mkframe(od, name="O%d" % k, arbid=0x700 + k))
+    d = tempfile.mkdtemp(prefix="c16_")
+    try:
+        src = os.path.join(d, "in.dbc")
+        dst = os.path.join(d, "out.dbc")
+        with open(src, "wb") as f:
+            canmatrix.formats.dump(db, f, "dbc")
+        sink = io.StringIO()
+        with contextlib.redirect_stdout(sink), contextlib.redirect_stderr(sink):
+            if via["api"] == "cli":
+                from click.testing import CliRunner
+                args = ["-s"]
+                if via.get("compressFrame"):
+                    args.append("--compressFrame=" + ",".join(via["compressFrame"]))
+                if via.get("recalcDLC"):
+                    args.append("--recalcDLC=" + via["recalcDLC"])
+                res = CliRunner().invoke(canmatrix.cli.convert.cli_convert, args + [src, dst])
+                if isinstance(res.exception, Timeout):
+                    raise res.exception
+                if res.exception is not None and not isinstance(res.exception, SystemExit):
+                    raise res.exception
+                if res.exit_code != 0:
+                    raise RuntimeError("canconvert exit %s" % res.exit_code)
+            else:
+                opts = {}
+                if via.get("compressFrame"):
+                    opts["compressFrame"] = ",".join(via["compressFrame"])
+                if via.get("recalcDLC"):
+                    opts["recalcDLC"] = via["recalcDLC"]
+                canmatrix.convert.convert(src, dst, **opts)
+            with open(dst, "rb") as f:
+                db2 = canmatrix.formats.load_flat(f, "dbc")
+        return db2.frame_by_name("F")
+    finally:
+        shutil.rmtree(d, ignore_errors=True)
+
+
 def observe(case):
     op, c = case["op"], case["c"]
+    try:
+        return guarded(lambda: observe_(op, c))
+    except Timeout:
+        return {"err": "diverges"}
+
+
+def observe_(op, c):
     if op == "fit":
-        fr = cm.Frame("F", arbitration_id=cm.ArbitrationId(1, False), size=c[0], is_fd=c[1])
-        db = cm.CanMatrix()
-        db.add_frame(fr)
+        if len(c) > 2:
+            fr, db = with_past(c[2]["h"])
+        else:
+            fr = cm.Frame("F", arbitration_id=cm.ArbitrationId(1, False), size=c[0], is_fd=c[1])
+            db = cm.CanMatrix()
+            db.add_frame(fr)
         db.set_fd_type()
         fd = fr.is_fd
         fr.fit_dlc()
         return [fr.size, bool(fd)]
-    fr = F.mkframe(c["f"], name=c.get("name", "F"))
+    if "via" in c:
+        if op == "compress":
+            return {"ok": [sig5(s) for s in via_convert(c, c["f"]["sigs"]).signals]}
+        if op == "dlc":
+            return via_convert(c, c["via"]["orig"]).size
+        raise ValueError(op)
+    db = None
+    if "h" in c:
+        fr, db = with_past(c["h"])
+    else:
+        fr = F.mkframe(c["f"], name=c.get("name", "F"))
     if op == "layout":
         return [[s.name for s in cell] for cell in fr.get_frame_layout()]
     if op == "dummies":
@@ -160,27 +647,23 @@ def observe(case):
         fr.create_dummy_signals()
         return {"mid": mid, "after": [sig5(s) for s in fr.signals]}
     if op == "dlc":
-        db = cm.CanMatrix()
-        k = 0
-        for od in c.get("before", []):
-            k += 1
-            db.add_frame(F.mkframe(od, name="O%d" % k, arbid=0x700 + k))
-        db.add_frame(fr)
-        for od in c.get("after", []):
-            k += 1
-            db.add_frame(F.mkframe(od, name="O%d" % k, arbid=0x700 + k))
-        db.recalc_dlc(c["strategy"])
+        if db is None:
+            db = cm.CanMatrix()
+            k = 0
+            for od in c.get("before", []):
+                k += 1
+                db.add_frame(F.mkframe(od, name="O%d" % k, arbid=0x700 + k))
+            db.add_frame(fr)
+            for od in c.get("after", []):
+                k += 1
+                db.add_frame(F.mkframe(od, name="O%d" % k, arbid=0x700 + k))
+        if c.get("api") == "calc_dlc":
+            fr.calc_dlc()
+        else:
+            db.recalc_dlc(c["strategy"])
         return fr.size
     if op == "compress":
-        old = pysignal.signal(pysignal.SIGALRM, _alarm)
-        pysignal.setitimer(pysignal.ITIMER_REAL, 5.0)
-        try:
-            fr.compress()
-        except Timeout:
-            return {"err": "diverges"}
-        finally:
-            pysignal.setitimer(pysignal.ITIMER_REAL, 0)
-            pysignal.signal(pysignal.SIGALRM, old)
+        fr.compress()
         return {"ok": [sig5(s) for s in fr.signals]}
 
 
@@ -190,8 +673,34 @@ def project(impl):
 
 def features(case, impl):
     yield "op=" + case["op"]
+    c = case["c"]
+    h = c[2]["h"] if isinstance(c, list) and len(c) > 2 else c.get("h") if isinstance(c, dict) else None
+    if h is not None:
+        steps = [x[0] for x in h["steps"]]
+        yield "past:%s:steps=%d" % (case["op"], len(steps))
+        for x in sorted(set(steps)):
+            yield "past:step=" + x
+        # a call that looks at the layout, then the length changes while the signals stay, then the judged call
+        called = False
+        resized = False
+        for x in steps:
+            if x in CALLS:
+                called, resized = True, False
+            elif x in ("size", "calc", "fit", "recalc"):
+                resized = called
+            elif x in ("move", "add", "del"):
+                called = resized = False
+        yield "past:%s:call-then-only-length-changed=%s" % (case["op"], resized)
+    if isinstance(c, dict) and "via" in c:
+        v = c["via"]
+        yield "via:%s:%s" % (case["op"], v["api"])
+        yield "via:%s:compressFrame=%s,recalcDLC=%s" % (case["op"], "no" if not v.get("compressFrame") else "yes", v.get("recalcDLC") or "no")
+        if case["op"] == "dlc":
+            yield "via:dlc:declared %s needed" % ("<" if c["f"]["size"] < ref_need(c["f"]["sigs"]) else "=" if c["f"]["size"] == ref_need(c["f"]["sigs"]) else ">")
     if case["op"] == "fit":
         return
+    if case["op"] == "dlc" and c.get("api"):
+        yield "dlc:api=" + c["api"]
     f = case["c"]["f"]
     yield "%s:nsigs=%s" % (case["op"], len(f["sigs"]) if len(f["sigs"]) < 4 else "4+")
     orders = {s[3] for s in f["sigs"]}
@@ -210,9 +719,33 @@ def nontrivial(case, impl):
 
 
 def shrink_candidates(case):
+    c = case["c"]
+    h = c[2]["h"] if isinstance(c, list) and len(c) > 2 else c.get("h") if isinstance(c, dict) else None
+    if h is not None:
+        # a shorter past (the frame that stands there is recomputed), fewer other frames
+        for i in range(len(h["steps"])):
+            h2 = dict(h, steps=h["steps"][:i] + h["steps"][i + 1:])
+            st = replay_hist(h2)
+            if st is None or not h2["steps"]:
+                continue
+            extra = {k: c[k] for k in ("strategy", "api") if k in c} if isinstance(c, dict) else None
+            cand = hist_case(case["op"], h2, st, extra=extra)
+            if cand is not None:
+                yield cand
+        if h["before"] or h["after"]:
+            h2 = dict(h, before=[], after=[])
+            st = replay_hist(h2)
+            extra = {k: c[k] for k in ("strategy", "api") if k in c} if isinstance(c, dict) else None
+            cand = hist_case(case["op"], h2, st, extra=extra)
+            if cand is not None:
+                yield cand
+        return
+    if isinstance(c, dict) and "via" in c:
+        if c.get("before") or c.get("after"):
+            yield {"op": case["op"], "c": dict(c, before=[], after=[])}
+        return
     if case["op"] == "fit":
         return
-    c = case["c"]
     f = c["f"]
     for i in range(len(f["sigs"])):
         yield {"op": case["op"], "c": dict(c, f=dict(f, sigs=f["sigs"][:i] + f["sigs"][i + 1:]))}
